@@ -11,7 +11,8 @@ AUX = os.path.join(BUILD, "aux", "c16")
 META = {
     "claim": "'.repeat n { body }' assembles to what the body written out n times assembles to (same base, bytes, outcome) for all operand "
              "values and bases; linked files F1 F2 [F3] equal their concatenation; insert_file equals the same bytes as '.byte' data; '.end' "
-             "discards exactly the rest of its own file; '.once' makes an included file contribute only the first time",
+             "discards exactly the rest of its own file; '.once' makes an included file contribute only the first time; an included file equals the same text written in place; a changed "
+             "inserted file is read anew by the next assembly",
     "technique": "CrossHair symbolic execution of both programs in one harness (metacommands.repeat/include/insert_file/end/once, "
                  "compile_block, operator caches, hoisting) with shared symbolic values; z3 decides image equality",
     "bounds": "repeat: 24 bodies (every operand form, '.', '.+k', indexed operands with symbolic offsets, non-linear operators on '.', nested "
@@ -50,6 +51,9 @@ BODIES = {
     "blk": ".blkb 3",
     "ascii": ".ascii \"ab\"",
     "div-const": ".word {X} / 3",
+    "even-byte": ".even\n.byte 1",
+    "odd-byte": ".odd\n.byte 1, 2",
+    "align-byte": ".align 4\n.byte 1, 2, 3",
 }
 ODD_OK = {"bytes", "align-word", "blk", "ascii", "nested-byte"}
 
@@ -288,6 +292,62 @@ def h_once_linked(params, vals, ctx):
     return len(o.code) == want_len
 
 
+INC_BODIES = {
+    "own-label-negative": "tab: .word 2000 - tab, -tab & 177777, 3*tab - 2*tab\n",
+    "own-label-diff": "a1: .word a2 - a1, {X}\na2: .word a1, . - a1\n",
+    "relative-own": "q1: mov q2, r0\nbr q1\nq2: .word q2 - q1\n",
+    "locals": "1$: inc r0\nbne 1$\nsob r1, 1$\n.word 1$\n",
+}
+
+
+def h_include_inline(params, vals, ctx):
+    """'.include' of a file equals the same text written in place (the file uses only its own names)."""
+    b, x, k = vals["B"], vals["X"], vals["K"]
+    require(0 <= b <= 20000 and b % 2 == 0)
+    require(-65536 < x < 65536)
+    require(0 <= k <= 3)
+    k = concretize(k)
+    order = ["B", "X", "K"]
+    body = INC_BODIES[params["body"]]
+    sfx = "" if ctx.route == "inject" else f"_t{os.getpid()}"
+    from ..symasm import render
+    inc = f"inl_{params['body']}{sfx}.mac"
+    write_aux_file("c16", inc, render(body, order, vals, ctx.route))
+    src = os.path.join(AUX, "main_inl.mac")
+    late = params.get("late", False)
+    head = ("" if late else ".link {B}\n") + "P0:: .word 1\n" + ".word 0\n" * k
+    tail = "P9: .word P9\n" + (".link {B}\n" if late else "")
+    p1 = head + f'.include "{inc}"\n' + tail
+    p2 = head + body + tail
+    o1 = assemble([(src, p1)], vals, route=ctx.route, order=order)
+    o2 = assemble([(src, p2)], vals, route=ctx.route, order=order)
+    ctx.observe_outcome(o1)
+    ctx.observe_outcome(o2)
+    ctx.reach(o1.status == "ok" and o2.status == "ok")
+    if o1.status != "ok" or o2.status != "ok":
+        return False
+    return same(o1, o2)
+
+
+def h_insert_changed(params, vals, ctx):
+    """Two assemblies in one process with the inserted file changed in between: each sees the bytes present at its time."""
+    b = vals["B"]
+    require(0 <= b < 60000)
+    name = f"chg_{params['tag']}_{os.getpid()}.bin"
+    src = os.path.join(AUX, "main_chg.mac")
+    text = '.link {B}\n.byte 1\ninsert_file "' + name + '"\n.byte 2\n'
+    write_aux_file("c16", name, bytes(params["first"]))
+    o1 = assemble([(src, text)], vals, route=ctx.route)
+    write_aux_file("c16", name, bytes(params["second"]))
+    o2 = assemble([(src, text)], vals, route=ctx.route)
+    ctx.observe_outcome(o1)
+    ctx.observe_outcome(o2)
+    ctx.reach(o1.status == "ok" and o2.status == "ok")
+    if o1.status != "ok" or o2.status != "ok":
+        return False
+    return bytes(o1.code) == b"\x01" + bytes(params["first"]) + b"\x02" and bytes(o2.code) == b"\x01" + bytes(params["second"]) + b"\x02"
+
+
 def obligations(tier, seed):
     obs = []
     counts = [0, 1, 2, 3, 4] if tier == "thorough" else [0, 2, 3]
@@ -311,6 +371,13 @@ def obligations(tier, seed):
                       note=" || ".join(f.replace("\n", " / ") for f in files)))
     for data in ([], [0], [255, 1], [1, 2, 3], [0, 0, 0, 0, 0, 9]) if tier == "quick" else [list(range(k)) for k in range(7)] + [[255] * 6]:
         obs.append(Ob(oid=f"insert/{len(data)}-{sum(data)}", harness=P + "h_insert", params={"data": data, "tag": str(sum(data))}, vars={"B": "int", "X": "int"}, timeout=300))
+    for i, (a, b_) in enumerate([([1, 2, 3], [9, 8, 7]), ([1, 2], [1, 2, 3, 4]), ([5], []), ([], [6, 6])]):
+        obs.append(Ob(oid=f"insert/changed-between-assemblies/{i}", harness=P + "h_insert_changed", params={"first": a, "second": b_, "tag": str(i)},
+                      vars={"B": "int"}, timeout=300))
+    for body in INC_BODIES:
+        for late in (False, True):
+            obs.append(Ob(oid=f"include-inline/{body}/{'late-link' if late else 'link-first'}", harness=P + "h_include_inline", params={"body": body, "late": late},
+                          vars={"B": "int", "X": "int", "K": "int"}, timeout=400, per_path=90))
     obs.append(Ob(oid="insert/symbolic", harness=P + "h_insert_symbolic", params={}, vars={"B": "int", "DATA": "bytes"}, timeout=900))
     for kind in ("single", "first-of-two", "bare-end", "included"):
         obs.append(Ob(oid=f"end/{kind}", harness=P + "h_end", params={"kind": kind}, vars={"B": "int", "X": "int"}, timeout=300))
